@@ -50,10 +50,16 @@ class Runner:
         self.timeouts = []
         self.incomplete = []    # cases given up on
         self.executed = 0
+        self.rebuilt = 0
 
     def run(self, cases, tag, timeout_s=120):
         """returns list of parsed results (None where the case could not be completed)"""
         res = [None] * len(cases)
+        if not os.path.exists(self.exe):
+            # another check rebuilt the shared build directory (bin/build.sh wipes <flavour>/bin when the tree changed): build again
+            vlib.build('asan')
+            self.exe = vlib.harness('asan', 'c15_setup')
+            self.rebuilt += 1
         pending = [(i, []) for i in range(len(cases))]
         rounds = 0
         while pending and rounds < 6:
@@ -373,6 +379,8 @@ def run(tier):
             rcase = desc
         chk.violation('%s:%s' % (kind, cp), '%d tuples: %s on call path %s; first: %s; examples: %s' % (len(lst), kind, cp, desc, [x[0] for x in lst[1:4]]),
                       {'case': rcase})
+    if R.rebuilt:
+        notes.append('the executor vanished %d time(s) during the run (shared build directory rebuilt by another check) and was rebuilt from the then-current tree' % R.rebuilt)
     if R.incomplete:
         exhaustive = False
         notes.append('%d case lines not completed (more than 3 dying tuples, or unattributed death): %s' % (len(R.incomplete), R.incomplete[:5]))
